@@ -34,8 +34,12 @@ impl Definition {
         self.usages.is_empty()
     }
 
+    /// The usages, in source order (they are kept in a set, which has no order of its own)
     pub fn usages(&self) -> Vec<&DefinitionLocation> {
-        self.usages.iter().collect_vec()
+        self.usages
+            .iter()
+            .sorted_by_key(|dl| (dl.span, dl.parent_scope))
+            .collect_vec()
     }
 
     pub fn definition_and_usages(&self) -> Vec<&DefinitionLocation> {
@@ -43,7 +47,7 @@ impl Definition {
         if let Some(l) = &self.location {
             result.push(l);
         }
-        result.extend(self.usages.iter().collect_vec());
+        result.extend(self.usages());
         result
     }
 
